@@ -298,6 +298,7 @@ def execute(plan):
     bump(probes, f"bits_{bits}" if bits in (1, 8, 16, 32) else "bits_other")
 
     shared = {"det": None}
+    seam_lost = {"v": False}
 
     def expose(image, coupled):
         sim.begin_exposure(coupled_to_previous=coupled)
@@ -365,10 +366,13 @@ def execute(plan):
             ok = check_frame(dn1, img, "expose")
             dn1 = np.asarray(dn1)
             ev["out"] = "ok"
-            ev["fp"] = core.fp_array(dn1)
             ev["rng_calls"] = sim.calls
-            if sim.total_calls == 0:
+            if sim.total_calls == 0 and (d["read_noise"] > 0 or float(img.max()) * d["t"] > 0):
+                # the exposure never asked the simulated source for a draw: the noise
+                # came from somewhere the simulator does not own, frames are not replayable
                 bump(probes, "rng_seam_bypassed")
+                seam_lost["v"] = True
+            ev["fp"] = "unseeded" if seam_lost["v"] else core.fp_array(dn1)
             if ok:
                 frame_f = dn1.astype(np.float64)
         elif k == "again":
@@ -384,7 +388,7 @@ def execute(plan):
                 events.append(ev)
                 continue
             ev["out"] = "ok"
-            ev["fp"] = core.fp_array(dn3)
+            ev["fp"] = "unseeded" if seam_lost["v"] else core.fp_array(dn3)
             check_frame(dn3, img, "again")
             if mode in ("off", "coupled", "tails") and sim.total_calls > 0:
                 if dn3.shape != dn1.shape or not np.array_equal(dn3, dn1):
@@ -422,7 +426,7 @@ def execute(plan):
                 events.append(ev)
                 continue
             ev["out"] = "ok"
-            ev["fp"] = core.fp_array(dn2)
+            ev["fp"] = "unseeded" if seam_lost["v"] else core.fp_array(dn2)
             check_frame(dn2, img2, "brighter")
             if mode in ("off", "coupled", "tails") and sim.total_calls > 0 and dn2.shape == dn1.shape:
                 a1 = dn1.astype(np.int64)
